@@ -488,18 +488,18 @@ namespace vw
         };
         push_update();
 
-        // weights per mode: update, set_mask, set_base, param, accumulate, basins, kernel, query, refused, repeat
-        static const int W[6][10] = {
-            /* C07 */ { 15, 3, 3, 0, 2, 2, 3, 70, 0, 2 },
-            /* C08 */ { 20, 8, 8, 6, 10, 8, 16, 10, 6, 8 },
-            /* C09 */ { 38, 12, 15, 10, 4, 4, 2, 0, 7, 8 },
-            /* C10 */ { 34, 5, 5, 4, 8, 6, 34, 0, 0, 4 },
-            /* C16 */ { 40, 10, 10, 6, 3, 3, 14, 0, 12, 2 },
-            /* C19 */ { 32, 12, 12, 6, 0, 34, 0, 0, 0, 4 },
+        // weights per mode: update, set_mask, set_base, param, accumulate, basins, kernel, query, refused, repeat, erode
+        static const int W[6][11] = {
+            /* C07 */ { 15, 3, 3, 0, 2, 2, 3, 70, 0, 2, 0 },
+            /* C08 */ { 20, 8, 8, 6, 10, 8, 16, 10, 6, 8, 14 },
+            /* C09 */ { 38, 12, 15, 10, 4, 4, 2, 0, 7, 8, 5 },
+            /* C10 */ { 34, 5, 5, 4, 8, 6, 34, 0, 0, 4, 3 },
+            /* C16 */ { 40, 10, 10, 6, 3, 3, 14, 0, 12, 2, 2 },
+            /* C19 */ { 32, 12, 12, 6, 0, 34, 0, 0, 0, 4, 2 },
         };
         int row = mode == MODE_C07 ? 0 : mode == MODE_C08 ? 1 : mode == MODE_C09 ? 2 : mode == MODE_C10 ? 3 : mode == MODE_C16 ? 4 : 5;
         int total = 0;
-        for (int k = 0; k < 10; ++k)
+        for (int k = 0; k < 11; ++k)
             total += W[row][k];
         long len = r.range(2, thorough ? 28 : 11);
         std::vector<std::string> graph_snaps;
@@ -510,13 +510,13 @@ namespace vw
         {
             int pick = static_cast<int>(r.below(static_cast<uint64_t>(total)));
             int kind = 0;
-            for (; kind < 10; ++kind)
+            for (; kind < 11; ++kind)
             {
                 if (pick < W[row][kind])
                     break;
                 pick -= W[row][kind];
             }
-            static const int kinds[10] = { H_UPDATE, H_SET_MASK, H_SET_BASE, H_PARAM, H_ACCUMULATE, H_BASINS, H_KERNEL, H_QUERY, H_REFUSED, H_REPEAT };
+            static const int kinds[11] = { H_UPDATE, H_SET_MASK, H_SET_BASE, H_PARAM, H_ACCUMULATE, H_BASINS, H_KERNEL, H_QUERY, H_REFUSED, H_REPEAT, H_ERODE };
             HOp h;
             h.kind = kinds[kind];
             switch (h.kind)
@@ -624,6 +624,31 @@ namespace vw
                 case H_REPEAT:
                     w.history.push_back(h);
                     continue;
+                case H_ERODE:
+                {
+                    // a: 0 spl scalar K, 1 spl array K, 2 diffusion scalar K, 3 diffusion array K
+                    h.a = static_cast<long>(r.below(4));
+                    static const double dts[] = { 0.0, 1.0, 10.0, 1e3, 1e6 };
+                    h.x = dts[r.below(5)];
+                    static const double ks[] = { 0.0, 1e-5, 1e-3, 1.0 };
+                    h.y = ks[r.below(4)];
+                    if (h.a >= 2 && h.y == 0.0)
+                        h.y = 1e-3;  // diffusivity > 0
+                    h.b = static_cast<long>(r.below(3));  // area exponent 0.4 / 0.5 / 1
+                    h.c = static_cast<long>(r.below(3));  // slope exponent 1 / 2 / 0.8 (1 on multi-flow graphs)
+                    h.d = static_cast<long>(r.below(2));  // 1: the next update uses the eroded + uplifted surface
+                    w.history.push_back(h);
+                    if (h.d)
+                    {
+                        HOp u;
+                        u.kind = H_UPDATE;
+                        u.b = 1;  // take the eroded surface if one exists (else the stored field)
+                        u.field = gen_field(r, n, cols, prev_field.empty() ? nullptr : &prev_field, u.a);
+                        prev_field = u.field;
+                        w.history.push_back(u);
+                    }
+                    continue;
+                }
                 default:
                     continue;
             }
@@ -693,6 +718,7 @@ namespace vw
         std::vector<uint8_t> mask;
         std::vector<std::size_t> base = main.graph->base_levels();
         std::vector<double> last_field;
+        std::vector<double> eroded_field;  // surface after the last erode op (+ uplift), if any
         Obs last_obs;
         std::vector<double> cur_exp(w.ops.size());
         std::vector<int> cur_method(w.ops.size()), cur_route(w.ops.size());
@@ -840,9 +866,106 @@ namespace vw
             switch (h.kind)
             {
                 case H_UPDATE:
-                    if (h.field.size() == n)
+                    if (h.b == 1 && eroded_field.size() == n)
+                    {
+                        ++C["p.updates_with_eroded_surface"];
+                        do_update(eroded_field, false, static_cast<int>(opi));
+                    }
+                    else if (h.field.size() == n)
                         do_update(h.field, false, static_cast<int>(opi));
                     break;
+                case H_ERODE:
+                {
+                    if (!main.has_result || dirty_since_update)
+                        break;
+                    arr_t elev = main.last_result;
+                    const double dt = h.x, kc = h.y;
+                    static const double ms[] = { 0.4, 0.5, 1.0 };
+                    static const double ns[] = { 1.0, 2.0, 0.8 };
+                    const double m_exp = ms[h.b % 3];
+                    double n_exp = main.graph->single_flow() ? ns[h.c % 3] : 1.0;
+                    // the Newton iteration of the non-linear case was seen not to terminate for extreme
+                    // K * dt products (outside the claimed properties): keep those for the linear case only
+                    bool has_mst = false;
+                    for (auto& o : w.ops)
+                        if (o.kind == O_MST)
+                            has_mst = true;
+                    // (also seen on jittered meshes, where obtuse triangles give negative cell areas and
+                    // NaN factors: comparisons with NaN never end the iteration)
+                    if (kc * dt > 1.0 || has_mst || gs.kind == G_TRIMESH)
+                        n_exp = 1.0;
+                    std::vector<double> ero(n, 0.0);
+                    bool done = false;
+                    if (h.a < 2)
+                    {
+                        arr_t area = main.graph->accumulate(1.0);
+                        if (h.a == 0)
+                        {
+                            fs::spl_eroder<graph_t> er(*main.graph, kc, m_exp, n_exp, 1e-3);
+                            const auto& e = er.erode(elev, area, dt);
+                            for (std::size_t i = 0; i < n; ++i)
+                                ero[i] = e.flat(i);
+                        }
+                        else
+                        {
+                            arr_t karr = arr_t::from_shape(main.grid->shape());
+                            for (std::size_t i = 0; i < n; ++i)
+                                karr.flat(i) = kc * (1.0 + static_cast<double>(i % 3));
+                            fs::spl_eroder<graph_t> er(*main.graph, karr, m_exp, n_exp, 1e-3);
+                            const auto& e = er.erode(elev, area, dt);
+                            for (std::size_t i = 0; i < n; ++i)
+                                ero[i] = e.flat(i);
+                        }
+                        done = true;
+                        ++C["p.spl_erode"];
+                    }
+                    else
+                    {
+                        if constexpr (fs::is_raster_grid<G>::value)
+                        {
+                            if (gs.rows >= 3 && gs.cols >= 3)
+                            {
+                                if (h.a == 2)
+                                {
+                                    fs::diffusion_adi_eroder<G> er(*main.grid, kc);
+                                    const auto& e = er.erode(elev, dt);
+                                    for (std::size_t i = 0; i < n; ++i)
+                                        ero[i] = e.flat(i);
+                                }
+                                else
+                                {
+                                    arr_t karr = arr_t::from_shape(main.grid->shape());
+                                    for (std::size_t i = 0; i < n; ++i)
+                                        karr.flat(i) = kc * (1.0 + static_cast<double>(i % 4));
+                                    fs::diffusion_adi_eroder<G> er(*main.grid, karr);
+                                    const auto& e = er.erode(elev, dt);
+                                    for (std::size_t i = 0; i < n; ++i)
+                                        ero[i] = e.flat(i);
+                                }
+                                done = true;
+                                ++C["p.diffusion_erode"];
+                            }
+                        }
+                    }
+                    if (done)
+                    {
+                        uint64_t dg = 0;
+                        bool finite = true;
+                        eroded_field.resize(n);
+                        for (std::size_t i = 0; i < n; ++i)
+                        {
+                            dg = vsim::mix64(dg, dbits(ero[i]));
+                            double v = elev.flat(i) - ero[i] + 0.125;
+                            if (!std::isfinite(v))
+                                finite = false;
+                            eroded_field[i] = v;
+                        }
+                        if (!finite)
+                            eroded_field.clear();  // stay inside the documented domain (finite elevations)
+                        vsim::note(13, dg, opi);
+                    }
+                    break;
+                }
                 case H_REPEAT:
                     if (!last_field.empty())
                     {
